@@ -386,6 +386,7 @@ COMPONENTS = {
     "SkipList-skipzero": ("skiplist", ["listz"], "SkipList", "OrderedMapTrace", "Trace_nk6.cfg"),
     "SkipList-cmp": ("skiplist", ["listz"], "SkipList", "OrderedMapTrace", "Trace_nk6.cfg"),
     "Roaring": ("roaring", ["setz"], "Roaring", "RoaringTrace", "Trace_thorough.cfg"),
+    "FlexSlice": ("flex", [], "Slicez", "FlexTrace", "Trace.cfg"),
     "DList": ("dlist", [], "DList", "DListTrace", "Trace_thorough.cfg"),
     "SList": ("slist", [], "SList", "SListTrace", "Trace.cfg"),
 }
